@@ -45,8 +45,8 @@ CLAIMS = {
  'C12': ("Finite facts with a certificate theorem on the SSA form regenerated on every run (native and js/wasm builds): no store, map update, append, copy, clear or decoder destination is an object that is a view of, or reachable through pointers from, an argument of an exported library function, and nothing outside package initialisation writes an object reachable from a package-level variable (default parameter sets, suite registry, tables); mem_ok_sound makes the verdict cover every alias path of the fact base. padBytes as a value is a prefix or the input followed by fresh zeros (C05).",
          "The alias rules (views, pointers, memory contents as separate nodes; field- and flow-insensitive; dynamic calls by signature; code outside the analysed packages may return a view of what it was given; writes through other outside calls than the listed encoders/decoders are not seen) live in tools/gen_ssa and are trusted. Behavioural tie: every byte field presented as a sub-slice of a larger canary-filled array with every length/capacity relation around 8 and 128, parameter structs, parsed URLs, the default parameter sets and the registry compared before and after each call.", "6 C12"),
  'C13': ("Unbounded theorems: every validation model (HOTP, TOTP, OCRA) returns (true,nil) or (false,error) for all inputs; the error of a validation step does not depend on the HMAC function (hence not on the expected code); "
-         "errors produced after the HMAC are the two sentinels, whose texts (regenerated from errs.go) contain no decimal digit.",
-         "The secret-disclosure clause is tied by the correspondence's scan of real error strings for the secret (text and raw) and every in-window code; it is a test, not a theorem.", "6 C13"),
+         "errors produced after the HMAC are the two sentinels, whose texts (regenerated from errs.go) contain no decimal digit; no error of any generation or validation operation carries a string argument at all (sentinel, base32 position, or fixed text with numbers), so neither the secret nor the expected code is an argument of an error.",
+         "The rendering of errors to text is modelled for the library's own messages; that the real error strings contain neither the secret (text and raw) nor any in-window code is additionally scanned on every run (a test).", "6 C13"),
  'C15': ("Finite theorems on the registry regenerated from suite_rfc6287.go (all 45 names read under the RFC 6287 naming scheme, print back to themselves and denote exactly their entry; names distinct; list / known-test / lookup agree; every name instantiates) "
          "and unbounded theorems on the parser model over every name of the scheme (any numerals): if it accepts, the configuration is exactly the name's denotation; it accepts every representable name; "
          "digits outside 4..10, alphanumeric/hex questions outside the registry, a part count other than three and a version other than OCRA-1 are rejected; an accepted string is reported verbatim.",
